@@ -74,6 +74,11 @@ func (this *QRCodeWriter) Encode(
 		}
 	}
 
+	if quietZone < 0 {
+		return nil, gozxing.NewWriterException(
+			"IllegalArgumentException: Negative margin is not allowed: %d", quietZone)
+	}
+
 	code, e := encoder.Encoder_encode(contents, errorCorrectionLevel, hints)
 	if e != nil {
 		return nil, e
